@@ -447,7 +447,7 @@ def _exec_step(W, st, model, log, stats, bump, seed):
         fr = rng_of(fault["rseed"])
         only = fault.get("only")
         elig = (lambda lab: label_class(lab) == only) if only else eligible
-        fault = session.place_fault(fr, dr["events"], elig, kinds=tuple(fault.get("kinds") or ("kill", "kill", "io_error", "torn", "corrupt", "interrupt", "short")))
+        fault = session.place_fault(fr, dr["events"], elig, kinds=tuple(fault.get("kinds") or ("kill", "kill", "io_error", "torn", "corrupt", "interrupt", "short", "short")))
         st["fault"] = fault
     before = snapshot(W.root)
     sig_before = W.tree_sig()
@@ -550,7 +550,11 @@ def _exec_step(W, st, model, log, stats, bump, seed):
         if gone:
             raise Violation("C04.S2", f"{sig0}:partial-run-deleted-original", f"only shanks {st['nshank']} were extracted, yet the original was removed | " + ctx)
         model["dirty"] = True          # an incomplete set on purpose: later plain runs see debris
-    elif not fired and exc is None:
+    elif (not fired or (fired["kind"] in ("io_error", "short", "interrupt") and status == 1)) and exc is None:
+        # (a fault that fired but was absorbed - a retry that succeeded, a handler that swallowed it - leaves a run that
+        # REPORTS SUCCESS: it must have produced the complete valid output like any other successful run)
+        if fired:
+            bump("probes", "fault_absorbed_run_reported_success")
         if kind == "NP1" and status != -1:
             raise Violation("C04.S5", f"{sig0}:np1-status", f"NP1 returned {status} | " + ctx)
         if kind == "split" and status != 0:
